@@ -43,12 +43,35 @@ TABLE = {
     "C19-B2": ("C19", "_iteragg: defaults set up front and lookups guarded by `if begin:` / `if end:` (rebased)", "a falsy on-axis label (0) on a numeric dimension"),
     "C20-A": ("C20", "tinterpolate: period boundary test `ll > labels[ii-1]` instead of `!=`", "contiguous labels that step down (dekad-of-year 36 -> 1)"),
     "C20-B": ("C20", "tinterpolate: weights rebuilt after the scatter as (temp != 0)", "an observation that is exactly 0 in a non-linear series"),
+    "C01-R2": ("C01", "ws2d: band factors c and e allocated as float32 (z.astype(float32))", "large lambda (>= 1e2): relative error 1e-5 .. > 1, one ZeroDivisionError at 1e8"),
+    "C02-R2": ("C02", "ws2dpgu: `ww = w * p1; ww[envelope] = p` - cells above the curve get weight p regardless of validity", "p given, a missing cell and a negative fitted curve at that cell"),
+    "C03-R2": ("C03", "ws2d: early return `if w.sum() <= 1: return y`, which fires for the fractional p / 1-p weights", "whits(..., p=...) on a pixel with exactly two valid observations"),
+    "C04-R2": ("C04", "ws2doptvplc: `lc >= 0.5` instead of `lc > 0.5` (gufunc only)", "lag-1 correlation exactly 0.5 and an optimum outside the overlap of the two grids"),
+    "C05-R2": ("C05", "ws2dwcv: eigenvalues computed with the valid count n instead of the series length m", "missing cells (n < m)"),
+    "C06-R2": ("C06", "robust GCV: `sel` excludes observations whose value is 0 (yv != 0)", "robust=True and valid observations exactly equal to 0; then smooth(y+c) != smooth(y)+c"),
+    "C07-R2": ("C07", "gammastd: zero/valid counting on the calibration slice - p_zero is the share of zeros inside the window", "exact zeros and a calibration sub-window with a different zero share"),
+    "C08-R2": ("C08", "gammastd_grp: `valid_ix = (res != nodata) & np.isfinite(res)` - an infinite index skips the clamp", "grouped path, an observation far outside a tight calibration regime"),
+    "C09-R2": ("C09", "get_calibration_indices: np.datetime64(v, 'D') floors both bounds to midnight", "a bound with a time of day (noon-stamped or sub-daily axis)"),
+    "C10-R2": ("C10", "mann_kendall_trend_1d: early exit for S == 0 returning slope 0", "a tie-free series with S = 0 and a non-zero median slope (n = 0 or 1 mod 4)"),
+    "C11-R2": ("C11", "Dekad.__lt__ returns self._dkd <= other._dkd", "a strict < between operands of the same dekad"),
+    "C14-R2": ("C14", "do_mean: branch-free accumulation `result[tix, z_idx, 0] += pix * valid` indexes with the zone nodata value", "a zone nodata value outside [-num_zones, num_zones)"),
+    "C15-R2": ("C15", "autocorr_1d_int: gap rescaling of var_Y uses nx instead of ny", "exactly one end of the record is nodata (nx != ny)"),
+    "C16-R2": ("C16", "do_mean: per-step scratch accumulators reset with `zsum *= 0` after an empty zone stored NaN there", "a zone empty at step t and non-empty at a later step"),
+    "C17-R2": ("C17", "rolling_sum: empty window detected with `if yy[ii] == 0`", "a complete window whose valid cells sum to exactly 0"),
+    "C18-R2": ("C18", "croo simplified to `(xsort != 1).argmax('time')`", "a pixel that is 1 at every step"),
+    "C19-R2": ("C19", "_iteragg: default begin_ix = len(self._obj) instead of sizes[dim]", "default begin with an aggregated dimension that is not the leading axis"),
+    "C20-R2": ("C20", "tinterpolate: round(v / jj) replaced by int(v / jj + 0.5)", "negative period means"),
 }
 
 DETECTION = {
     "C07-A2": "missed: the two conditions are equivalent in exact real arithmetic; the defect exists only through the float rounding of 1 - 0.9",
     "C15-A": "missed: single-precision products are not modelled (floats are exact reals)",
     "C16-B": "missed: dask graph construction is outside the technique (C12 territory)",
+    "C02-R2": "not flagged by the C02 check (the kernel zero-fills masked cells, so both placeholder runs agree); caught by the C03 check "
+              "(kernel differs from the reference expectile model): HDC_REPO=<worktree> ./check C03 exits 1",
+    "C03-R2": "not flagged by the C03 check (its reference model shares ws2d with the kernel); caught by the C01 check on graded weight "
+              "vectors whose sum is <= 1: HDC_REPO=<worktree> ./check C01 exits 1",
+    "C06-R2": "missed: offset commutation of robust GCV is not encoded (DESIGN C06), and C05 has no reference robust loop",
 }
 
 
